@@ -9,13 +9,17 @@ PROPS["C09"] = {
             "the model scanF and the derivative-based specification spec_scan on the implementation's own parsed ASTs; distinct = distinct (tables, rules, texts)",
     "modelled": "lex/lex.go Tables.Scan (symbol map search, UTF-8 decoding incl. RuneError, checkpoints, end-of-input loop) mirrored; generator.go/compile.go/compress.go are covered through "
                 "their output: the checkpoint validator on every table set and the language-level oracle on every sampled text",
-    "partial": "spec_scan_correct (derivative matcher = inductive semantics) is not proved; check_bisim (tables vs rule derivatives for all texts) not built: "
-               "agreement of compiled tables with the rule-level specification is sampled, not proved per rule set",
+    "partial": "check_bisim (tables vs rule derivatives for all texts) not built: agreement of compiled tables with the rule-level specification is sampled "
+               "(every compiled rule set x 10 texts), not proved per rule set; the specification itself (spec_scan) is proved against the declarative semantics",
     "level_text": "Universal Coq theorem C09_scan_is_longest: for every table set accepted by the boolean validator check_tables, every start condition and every non-empty text, the model of Tables.Scan "
                   "(checkpoint cells, size/action registers, end-of-input loop) returns exactly the last accepting position and label of the run of the automaton encoded by the tables, else the position "
                   "where the run dies with action 0. The validator is evaluated on the real tables of every compiled rule set; the model is compared with Tables.Scan and, independently, Tables.Scan is "
-                  "compared with the regex-level specification (longest non-empty match, highest precedence, else invalid token up to the longest viable prefix) computed by Brzozowski derivatives.",
+                  "compared with the regex-level specification spec_scan computed by Brzozowski derivatives. The specification is itself proved (universal theorems, all rule sets and texts): "
+                  "C09_nullable_correct, C09_deriv_correct (w matches deriv c r <-> c::w matches r), C09_nonvoid_correct against the inductive semantics `matches` of expressions over input symbols, "
+                  "C09_rx_of_correct (the translation of the parsed AST denotes the AST's language), and C09_spec_scan_correct: the oracle answers the byte offset of the longest candidate word "
+                  "(a prefix of the decoded symbols, at the end of the text followed by up to four end markers) matched by some rule, with the action of the highest-precedence (earliest among equals) "
+                  "rule matching it; when no candidate is matched, action 0 and the offset of the longest prefix some rule can still extend.",
     "level_note": "Trusted: Coq kernel, extraction, glue, hook lex/verif_hooks_regexp.go (AST dump). Repaired in this tree: F6 (Scan end-of-input loop) and the missing 'accepts empty text' report for patterns that reduce to nothing.",
-    "technique": "Coq proof of a table validator (P2) over a Gallina model of Tables.Scan + extracted-model differential correspondence + derivative-based specification oracle",
+    "technique": "Coq proof of a table validator (P2) over a Gallina model of Tables.Scan + extracted-model differential correspondence + derivative-based specification oracle proved correct against an inductive regex semantics",
     "assumptions": ["rule sets that lex.Compile accepts (no 'accepts empty text', no identical rules)", "no empty character classes, {eoi} not under an unbounded repetition (see C12 for end-of-input cycles)"],
 }
